@@ -42,6 +42,11 @@ def finding_key(req, obs, detail):
             else:
                 key = "rejected-by-parser ret (call (id a) ((E (bin RightShift (id a) (id a)))) ())"
             return key
+        # an attribute argument that is a comma expression: printed with format_expression, read with parse_expression_no_seq
+        # (statement stream: whatever statement carries the attribute; source stream: `[a((a, a))]`)
+        if (key.startswith("st ") and re.search(r"\(attr [12] \(n [^)]*\) \([^\n]*\(bin Sequence ", key)) or \
+                (key.startswith("src ") and re.search(r"\[ \[? ?\w+ \( \( \w+ , \w+ \) \) \]", key)):
+            return "st tree-differs[list-length] attribute argument (bin Sequence (id a) (id b))"
         # source stream: a declarator whose array size is a parenthesised comma expression (one class, whatever
         # statement the 1-minimal program wraps around it)
         if key.startswith("src rejected-by-parser ") and re.search(r"(?:\ba|>|,) a \[ \( \w+ , \w+ \) \]", key):
